@@ -127,6 +127,28 @@ Inductive pkt :=
 Definition srv_init (c : conn) : conn :=
   if negb (c_client c) && is_firstflight (c_state c) then set_has_path c else c.
 
+(* one Version Negotiation packet (_receive_version_negotiation_packet) *)
+Definition vn_pkt (now verdict idle : Z) (c : conn) : conn :=
+  if c_client c && is_firstflight (c_state c) && negb (c_vn_done c) then
+    if verdict =? 0 then c
+    else if verdict =? 1 then close_end (set_event (Some EV_VN) c)
+    else connect_internal now idle (set_vn_done c)
+  else c.
+
+(* one decrypted packet up to the end of _payload_received / its except clause *)
+Definition proc_pkt (now nev : Z) (pc : option Z) (err : bool) (c : conn) : conn :=
+  let c := srv_init c in
+  let c := if is_firstflight (c_state c) then set_state CONNECTED c else c in
+  let c := push_events (repeat EV_OTHER (Z.to_nat nev)) c in
+  let c := match pc with
+           | Some pto3 =>
+               (* _handle_connection_close_frame: `if self._close_event is None` *)
+               if is_none (c_close_event c)
+               then close_begin false now pto3 (set_event (Some EV_PEER) c) else c
+           | None => c
+           end in
+  if err then do_close EV_ERROR c else c.
+
 Fixpoint recv_pkts (now : Z) (c : conn) (ps : list pkt) : conn :=
   match ps with
   | [] => c
@@ -134,28 +156,15 @@ Fixpoint recv_pkts (now : Z) (c : conn) (ps : list pkt) : conn :=
     match p with
     | PStop => c
     | PSkip => recv_pkts now (srv_init c) rest
-    | PVN verdict idle =>
-        if c_client c && is_firstflight (c_state c) && negb (c_vn_done c) then
-          if verdict =? 0 then c
-          else if verdict =? 1 then close_end (set_event (Some EV_VN) c)
-          else connect_internal now idle (set_vn_done c)
-        else c
+    | PVN verdict idle => vn_pkt now verdict idle c
     | PRetry valid idle =>
         if c_client c && valid then connect_internal now idle c else c
     | PReserved => do_close EV_ERROR c
     | PProc nev pc err idle =>
-        let c := srv_init c in
-        let c := if is_firstflight (c_state c) then set_state CONNECTED c else c in
-        let c := push_events (repeat EV_OTHER (Z.to_nat nev)) c in
-        let c := match pc with
-                 | Some pto3 =>
-                     if is_none (c_close_event c)
-                     then close_begin false now pto3 (set_event (Some EV_PEER) c) else c
-                 | None => c
-                 end in
-        let c := if err then do_close EV_ERROR c else c in
-        if is_end (c_state c) || c_close_pending c then c
-        else recv_pkts now (set_close_at (Some (now + idle)) c) rest
+        let c1 := proc_pkt now nev pc err c in
+        (* `if self._state in END_STATES or self._close_pending: return`, else re-arm the idle timer *)
+        if is_end (c_state c1) || c_close_pending c1 then c1
+        else recv_pkts now (set_close_at (Some (now + idle)) c1) rest
     end
   end.
 
